@@ -1,5 +1,479 @@
-import NibabelModel.Model.C10
-/-! Props/C10 — the property theorems for C10 (statements + proofs; helper lemmas live in Lemmas/). -/
+import NibabelModel.Lemmas.C10
+import NibabelModel.Lemmas.C10_Checks
+import NibabelModel.Lemmas.C10_Gen
+/-! Props/C10 — property theorems for C10 (binary headers are faithful to their bytes, byte order and
+    repairs).  Part A: byte codec and record codec over EVERY tiling layout; part B: WrapStruct
+    operations; part C: endianness guessing; part D: check batteries; part E: obligations over the
+    tables regenerated from the source (Generated/C10Layouts, Generated/C10Codes). -/
 namespace Nb.C10
+
+/-! ### A. codec (`dec_enc`, `enc_dec`, `dec_swap_reverse` are in Lemmas/C10) -/
+
+example : dec .be (enc .be 4 348) = 348 := by decide
+example : enc .le 2 (dec .le [0x5C, 0x01]) = [0x5C, 0x01] := by decide
+
+/-- A header built from bytes serialises to the same bytes: for every layout that tiles its block,
+    every byte string of the block's length and both byte orders. -/
+theorem bytes_roundtrip (L : Layout) (hwf : L.wf = true) (e : Endian) (bs : List Byte)
+    (hl : bs.length = L.size) : serialize L e (parse L e bs) = bs := by
+  have ht := tiles_total hwf
+  unfold serialize parse
+  rw [parseFs_eq_seq hwf, List.drop_zero, serializeFs_parseSeq _ _ _ (by omega),
+    List.take_of_length_le (by omega)]
+
+example : Gen.mghFooter.wf = true ∧ (List.replicate 20 (7 : Byte)).length = Gen.mghFooter.size := by decide +kernel
+
+/-- Conversely, representable field values survive serialisation (what a setter stores is what a
+    getter reads, in either byte order). -/
+theorem fields_roundtrip (L : Layout) (hwf : L.wf = true) (e : Endian) (vals : List (List Nat))
+    (hv : valsOk L.fields vals = true) : parse L e (serialize L e vals) = vals := by
+  unfold serialize parse
+  rw [parseFs_eq_seq hwf, List.drop_zero, parseSeq_serializeFs e hv]
+
+example : valsOk Gen.mghFooter.fields [[1], [2], [3], [4], [0xFFFFFFFF]] = true := by decide
+
+/-- Byte-swapping every item and reading in the other byte order gives identical field values. -/
+theorem parse_swapped (L : Layout) (hwf : L.wf = true) (e : Endian) (bs : List Byte)
+    (hl : bs.length = L.size) : parse L e.swap (swapFields L bs) = parse L e bs := by
+  have ht := tiles_total hwf
+  unfold parse swapFields
+  rw [parseFs_eq_seq hwf, parseFs_eq_seq hwf, swapFs_eq_seq hwf, List.drop_zero, List.drop_zero,
+    parseSeq_swapSeq _ _ _ (by omega)]
+
+theorem swapFields_length (L : Layout) (hwf : L.wf = true) (bs : List Byte) (hl : bs.length = L.size) :
+    (swapFields L bs).length = L.size := by
+  have ht := tiles_total hwf
+  unfold swapFields
+  rw [swapFs_eq_seq hwf, List.drop_zero, swapSeq_length _ _ (by omega)]; omega
+
+example : parse Gen.mghFooter .le (swapFields Gen.mghFooter ((List.range 20).map UInt8.ofNat))
+    = parse Gen.mghFooter .be ((List.range 20).map UInt8.ofNat) := by decide +kernel
+
+/-- `byteswap` twice is the identity on the bytes. -/
+theorem swapFields_involutive (L : Layout) (hwf : L.wf = true) (bs : List Byte) (hl : bs.length = L.size) :
+    swapFields L (swapFields L bs) = bs := by
+  have ht := tiles_total hwf
+  unfold swapFields
+  rw [swapFs_eq_seq hwf, swapFs_eq_seq hwf, List.drop_zero, List.drop_zero,
+    swapSeq_swapSeq _ _ (by omega), List.take_of_length_le (by omega)]
+
+/-! ### B. WrapStruct -/
+
+/-- `W(bytes, e).binaryblock == bytes` -/
+theorem binaryblock_ofBytes (L : Layout) (hwf : L.wf = true) (e : Endian) (bs : List Byte)
+    (hl : bs.length = L.size) : binaryblock L (ofBytes L e bs) = bs :=
+  bytes_roundtrip L hwf e bs hl
+
+theorem ofBytes_ok (L : Layout) (hwf : L.wf = true) (e : Endian) (bs : List Byte)
+    (hl : bs.length = L.size) : (ofBytes L e bs).ok L = true := by
+  have ht := tiles_total hwf
+  unfold Hdr.ok ofBytes parse
+  rw [parseFs_eq_seq hwf, List.drop_zero]
+  exact valsOk_parseSeq _ _ _ (by omega)
+
+theorem binaryblock_length (L : Layout) (hwf : L.wf = true) (h : Hdr) (hok : h.ok L = true) :
+    (binaryblock L h).length = L.size := by
+  have ht := tiles_total hwf
+  unfold binaryblock serialize
+  rw [serializeFs_length _ hok]; omega
+
+theorem swapFields_binaryblock (L : Layout) (hwf : L.wf = true) (h : Hdr) (hok : h.ok L = true) :
+    swapFields L (binaryblock L h) = serialize L h.e.swap h.vals := by
+  unfold swapFields binaryblock serialize
+  rw [swapFs_eq_seq hwf, List.drop_zero, swapSeq_serializeFs _ hok]
+
+/-- The byte-swapped copy has the other endianness and exposes identical field values. -/
+theorem asByteswapped_vals (L : Layout) (hwf : L.wf = true) (h : Hdr) (hok : h.ok L = true) :
+    (asByteswapped L h).e = h.e.swap ∧ (asByteswapped L h).vals = h.vals := by
+  refine ⟨rfl, ?_⟩
+  show parse L h.e.swap (swapFields L (binaryblock L h)) = h.vals
+  rw [swapFields_binaryblock L hwf h hok]
+  exact fields_roundtrip L hwf _ _ hok
+
+/-- its bytes are the item-wise reversal of the original bytes -/
+theorem binaryblock_asByteswapped (L : Layout) (hwf : L.wf = true) (h : Hdr) (hok : h.ok L = true) :
+    binaryblock L (asByteswapped L h) = swapFields L (binaryblock L h) := by
+  have hl := binaryblock_length L hwf h hok
+  exact bytes_roundtrip L hwf _ _ (swapFields_length L hwf _ hl)
+
+/-- `as_byteswapped` twice is the identity. -/
+theorem asByteswapped_twice (L : Layout) (hwf : L.wf = true) (h : Hdr) (hok : h.ok L = true) :
+    asByteswapped L (asByteswapped L h) = h := by
+  have h1 := asByteswapped_vals L hwf h hok
+  have hok1 : (asByteswapped L h).ok L = true := by unfold Hdr.ok; rw [h1.2]; exact hok
+  have h2 := asByteswapped_vals L hwf _ hok1
+  cases h with
+  | mk e vals =>
+    have e2 : (asByteswapped L (asByteswapped L ⟨e, vals⟩)).e = e := by
+      rw [h2.1, h1.1]; exact Endian.swap_swap e
+    have v2 : (asByteswapped L (asByteswapped L ⟨e, vals⟩)).vals = vals := by rw [h2.2, h1.2]
+    generalize asByteswapped L (asByteswapped L ⟨e, vals⟩) = r at e2 v2
+    cases r; simp_all
+
+theorem hdrEq_swap_aux (L : Layout) (hwf : L.wf = true) (a b : Hdr)
+    (hb : b.ok L = true) : hdrEq L a b = (serialize L a.e a.vals == serialize L a.e b.vals) := by
+  unfold hdrEq
+  by_cases he : a.e = b.e
+  · simp [he, binaryblock]
+  · have : b.e.swap = a.e := by
+      cases ha' : a.e <;> cases hb' : b.e <;> simp_all [Endian.swap]
+    have hs : swapFields L (serialize L b.e b.vals) = serialize L b.e.swap b.vals :=
+      swapFields_binaryblock L hwf b hb
+    simp only [he, if_false, binaryblock, hs, this]
+
+/-- `__eq__` is exactly equality of the field values, whatever the two byte orders are. -/
+theorem hdrEq_iff_vals (L : Layout) (hwf : L.wf = true) (a b : Hdr) (ha : a.ok L = true)
+    (hb : b.ok L = true) : hdrEq L a b = true ↔ a.vals = b.vals := by
+  rw [hdrEq_swap_aux L hwf a b hb, beq_iff_eq]
+  constructor
+  · intro h
+    have := congrArg (parse L a.e) h
+    unfold serialize parse at this
+    rwa [← serialize, ← parse, fields_roundtrip L hwf _ _ ha, ← serialize, ← parse,
+      fields_roundtrip L hwf _ _ hb] at this
+  · intro h; rw [h]
+
+/-- A byte-swapped copy compares equal to the original (both ways round). -/
+theorem eq_swapped (L : Layout) (hwf : L.wf = true) (h : Hdr) (hok : h.ok L = true) :
+    hdrEq L h (asByteswapped L h) = true ∧ hdrEq L (asByteswapped L h) h = true := by
+  have h1 := asByteswapped_vals L hwf h hok
+  have hok1 : (asByteswapped L h).ok L = true := by unfold Hdr.ok; rw [h1.2]; exact hok
+  exact ⟨(hdrEq_iff_vals L hwf _ _ hok hok1).mpr h1.2.symm, (hdrEq_iff_vals L hwf _ _ hok1 hok).mpr h1.2⟩
+
+example : (ofBytes Gen.mghFooter .be (List.replicate 20 (3 : Byte))).ok Gen.mghFooter = true := by decide
+
+/-- `copy()` yields the same header (same bytes, same byte order, same values). -/
+theorem copy_eq (L : Layout) (hwf : L.wf = true) (h : Hdr) (hok : h.ok L = true) : copy L h = h := by
+  cases h with
+  | mk e vals =>
+    show (⟨e, parse L e (serialize L e vals)⟩ : Hdr) = ⟨e, vals⟩
+    rw [fields_roundtrip L hwf e vals hok]
+
+theorem setObj_length (L : Layout) (s : Heap) (j : Nat) (n : String) (v : List Nat) :
+    (Heap.setObj L s j n v).length = s.length := by
+  unfold Heap.setObj; split <;> simp
+
+theorem setObj_other (L : Layout) (s : Heap) (i j : Nat) (hij : i ≠ j) (n : String) (v : List Nat) :
+    (Heap.setObj L s j n v).getD i default = s.getD i default := by
+  unfold Heap.setObj
+  split
+  · simp [List.getD_eq_getElem?_getD, Ne.symm hij]
+  · rfl
+
+theorem setMany_other (L : Layout) (s : Heap) (i j : Nat) (hij : i ≠ j) (ws : List (String × List Nat)) :
+    (Heap.setMany L s j ws).getD i default = s.getD i default := by
+  unfold Heap.setMany
+  induction ws generalizing s with
+  | nil => rfl
+  | cons w ws ih => simp only [List.foldl_cons]; rw [ih, setObj_other L s i j hij]
+
+/-- Copies are independent of the original: `copy` allocates a new object; any sequence of field
+    writes to the copy leaves the original untouched, and any sequence of writes to the original
+    leaves the copy equal to what was copied. -/
+theorem copy_independent (L : Layout) (s : Heap) (i : Nat) (hi : i < s.length)
+    (ws : List (String × List Nat)) :
+    (Heap.copyObj L s i).2 ≠ i ∧
+    (Heap.setMany L (Heap.copyObj L s i).1 (Heap.copyObj L s i).2 ws).getD i default = s.getD i default ∧
+    (Heap.setMany L (Heap.copyObj L s i).1 i ws).getD (Heap.copyObj L s i).2 default
+      = copy L (s.getD i default) := by
+  have hne : s.length ≠ i := by omega
+  simp only [Heap.copyObj]
+  refine ⟨hne, ?_, ?_⟩
+  · rw [setMany_other L _ i _ (Ne.symm hne)]
+    simp [List.getD_eq_getElem?_getD, List.getElem?_append_left hi]
+  · rw [setMany_other L _ _ i hne]
+    simp [List.getD_eq_getElem?_getD]
+
+example : (0 : Nat) < ([default] : Heap).length := by decide
+
+/-! ### C. endianness guessing -/
+
+theorem toInt_zero (w : Nat) : toInt w 0 = 0 := by
+  unfold toInt; simp [pow256_pos w]
+
+theorem dec_swap_enc (e : Endian) (w v : Nat) : dec e.swap (enc e w v) = decLE (encLE w v).reverse := by
+  cases e <;> simp [dec, enc, Endian.swap]
+
+/-- `AnalyzeHeader.guessed_endian` (also used by SPM99/SPM2/NIfTI-1/NIfTI-2 with their `sizeof_hdr`):
+    for EVERY byte string that is a valid header in byte order `e` — dim[0] in 1..7, or dim[0] = 0 and
+    sizeof_hdr correct — the guess made on a machine of either native order returns `e`. -/
+theorem endian_guess_correct (g : GuessSpec) (size : Nat) (hg : g.ok size = true)
+    (native e : Endian) (bs : List Byte) (hl : bs.length = size)
+    (hvalid : (1 ≤ toInt g.dimW (itemAt e g.dimOff g.dimW 0 bs) ∧ toInt g.dimW (itemAt e g.dimOff g.dimW 0 bs) ≤ 7) ∨
+              (toInt g.dimW (itemAt e g.dimOff g.dimW 0 bs) = 0 ∧
+               toInt g.szW (itemAt e g.szOff g.szW 0 bs) = (g.sizeofHdr : Int))) :
+    guessAnalyze g native bs = e := by
+  simp only [GuessSpec.ok, Bool.and_eq_true, decide_eq_true_eq] at hg
+  obtain ⟨⟨⟨⟨hw2, hsz⟩, hpal⟩, hdl⟩, hsl⟩ := hg
+  simp only [itemAt, Nat.mul_zero, Nat.add_zero] at hvalid
+  simp only [guessAnalyze, itemAt, Nat.mul_zero, Nat.add_zero]
+  obtain ⟨D, hD⟩ : ∃ D, (bs.drop g.dimOff).take g.dimW = D := ⟨_, rfl⟩
+  obtain ⟨S, hS⟩ : ∃ S, (bs.drop g.szOff).take g.szW = S := ⟨_, rfl⟩
+  simp only [hD, hS] at hvalid ⊢
+  have hDl : D.length = g.dimW := by rw [← hD, List.length_take, List.length_drop]; omega
+  have hSl : S.length = g.szW := by rw [← hS, List.length_take, List.length_drop]; omega
+  have hDlt : dec e D < 256 ^ g.dimW := by have := dec_lt e D; rwa [hDl] at this
+  have hSlt : dec e S < 256 ^ g.szW := by have := dec_lt e S; rwa [hSl] at this
+  rcases Endian.eq_or_swap native e with rfl | ⟨hn, hns⟩
+  · -- the machine's order is the header's order
+    rcases hvalid with ⟨h1, h7⟩ | ⟨h0, hs⟩
+    · have : ¬ toInt g.dimW (dec native D) = 0 := by omega
+      simp [this, h1, h7]
+    · have hSv : dec native S = g.sizeofHdr := by
+        rcases toInt_cases g.szW _ hSlt with ⟨h, _⟩ | ⟨h, _⟩ <;> omega
+      have hSe : S = enc native g.szW g.sizeofHdr := by
+        have := enc_dec native S; rw [hSl, hSv] at this; exact this.symm
+      have hne : ¬ toInt g.szW (dec native.swap S) = (g.sizeofHdr : Int) := by
+        rw [hSe, dec_swap_enc]
+        have hlt : decLE (encLE g.szW g.sizeofHdr).reverse < 256 ^ g.szW := by
+          have := decLE_lt (encLE g.szW g.sizeofHdr).reverse
+          rwa [List.length_reverse, encLE_length] at this
+        rcases toInt_cases g.szW _ hlt with ⟨h, _⟩ | ⟨h, _⟩ <;> omega
+      simp [h0, hne]
+  · -- the header is in the other order
+    subst hn
+    rw [Endian.swap_swap]
+    rcases hvalid with ⟨h1, h7⟩ | ⟨h0, hs⟩
+    · have hv : toInt g.dimW (dec e D) = (dec e D : Int) := by
+        rcases toInt_cases g.dimW _ hDlt with ⟨h, _⟩ | ⟨h, _⟩ <;> omega
+      have := swapped_small_not_small e D (by omega) (dec e D) (by omega) (by omega) rfl
+      rw [hDl] at this
+      simp [this.1, this.2]
+    · have hv : dec e D = 0 := by
+        rcases toInt_cases g.dimW _ hDlt with ⟨h, _⟩ | ⟨h, _⟩ <;> omega
+      simp [dec_swap_zero e D hv, toInt_zero, hs]
+
+/- non-vacuity: a 6-byte toy header (sizeof_hdr i4 at 0, dim[0] i2 at 4) written big-endian with
+   dim[0] = 3 satisfies `g.ok` and the validity hypothesis -/
+example : (⟨0, 4, 4, 2, 348⟩ : GuessSpec).ok 6 = true ∧ (enc .be 4 348 ++ enc .be 2 3).length = 6 ∧
+    (1 ≤ toInt 2 (itemAt .be 4 2 0 (enc .be 4 348 ++ enc .be 2 3)) ∧
+     toInt 2 (itemAt .be 4 2 0 (enc .be 4 348 ++ enc .be 2 3)) ≤ 7) := by decide +kernel
+
+example : Gen.nifti2.guessSpec? 540 = some ⟨0, 4, 16, 8, 540⟩ ∧ (⟨0, 4, 16, 8, 540⟩ : GuessSpec).ok 540 = true := by
+  decide +kernel
+
+/-- the side conditions hold for every class of the working tree that uses the Analyze guess, so the
+    guess is right for every valid header of Analyze, SPM99, SPM2, NIfTI-1 and NIfTI-2 -/
+theorem endian_guess_correct_generated (c : ClsSpec) (hc : c ∈ Gen.classes) (L : Layout)
+    (hL : Gen.layoutOf? c.layout = some L) (sz : Nat) (hk : c.guess = .analyze sz)
+    (g : GuessSpec) (hgs : L.guessSpec? sz = some g)
+    (native e : Endian) (bs : List Byte) (hl : bs.length = L.size)
+    (hvalid : (1 ≤ toInt g.dimW (itemAt e g.dimOff g.dimW 0 bs) ∧ toInt g.dimW (itemAt e g.dimOff g.dimW 0 bs) ≤ 7) ∨
+              (toInt g.dimW (itemAt e g.dimOff g.dimW 0 bs) = 0 ∧
+               toInt g.szW (itemAt e g.szOff g.szW 0 bs) = (g.sizeofHdr : Int))) :
+    guessEndian L c.guess native bs = some e := by
+  have hall : ∀ c ∈ Gen.classes, classGuessOk c = true := by decide +kernel
+  have := hall c hc
+  simp only [classGuessOk, hL, hk, hgs] at this
+  simp only [guessEndian, hk, hgs, Option.map_some]
+  exact congrArg some (endian_guess_correct g L.size this native e bs hl hvalid)
+
+example : Gen.nifti1Cls ∈ Gen.classes ∧ Gen.layoutOf? Gen.nifti1Cls.layout = some Gen.nifti1 ∧
+    Gen.nifti1Cls.guess = .analyze 348 := by decide +kernel
+
+/-- `EcatHeader.guessed_endian`: a header whose `sw_version` is 74 in byte order `e` is guessed `e`. -/
+theorem ecat_guess_correct (swOff : Nat) (native e : Endian) (bs : List Byte)
+    (hl : swOff + 2 ≤ bs.length) (hvalid : itemAt e swOff 2 0 bs = 74) :
+    guessEcat swOff native bs = e := by
+  simp only [itemAt, Nat.mul_zero, Nat.add_zero] at hvalid
+  simp only [guessEcat, itemAt, Nat.mul_zero, Nat.add_zero]
+  obtain ⟨D, hD⟩ : ∃ D, (bs.drop swOff).take 2 = D := ⟨_, rfl⟩
+  simp only [hD] at hvalid ⊢
+  have hDl : D.length = 2 := by rw [← hD, List.length_take, List.length_drop]; omega
+  rcases Endian.eq_or_swap native e with rfl | ⟨hn, hns⟩
+  · simp [hvalid]
+  · subst hn
+    have := dec_swap_small e D 74 (by decide) hvalid (by omega)
+    rw [hDl] at this
+    simp [this, Endian.swap_swap]
+
+example : (0 : Nat) + 2 ≤ (enc .le 2 74).length ∧ itemAt .le 0 2 0 (enc .le 2 74) = 74 := by decide +kernel
+
+theorem ecat_guess_correct_generated (L : Layout) (hL : Gen.layoutOf? Gen.ecatCls.layout = some L)
+    (f : Field) (hf : L.find? "sw_version" = some f)
+    (native e : Endian) (bs : List Byte) (hl : bs.length = L.size)
+    (hvalid : itemAt e f.offset 2 0 bs = 74) :
+    guessEndian L Gen.ecatCls.guess native bs = some e := by
+  have hok : classGuessOk Gen.ecatCls = true := by decide +kernel
+  have hg : Gen.ecatCls.guess = .ecat := by decide +kernel
+  simp only [classGuessOk, hL, hg, hf, Bool.and_eq_true, decide_eq_true_eq] at hok
+  simp only [guessEndian, hg, hf, Option.map_some]
+  exact congrArg some (ecat_guess_correct f.offset native e bs (by omega) hvalid)
+
+example : Gen.layoutOf? Gen.ecatCls.layout = some Gen.ecat ∧ (Gen.ecat.find? "sw_version").isSome = true := by
+  decide +kernel
+
+/-! ### D. check batteries (`BatteryRunner.check_fix` over the `_chk_*` functions)
+
+  Abstraction: the checks act on the record `CF` of the fields they read or write; integer fields are
+  exact `Int`s, float fields (pixdim, qfac, NIfTI-1 vox_offset) are raw bit patterns over ALL patterns
+  (NaN, infinities, signed zeros, denormals included); `dtItemsize` is the regenerated code table.
+  `raises` marks the one input on which `_chk_offset` itself raises (vox_offset = -inf, single magic);
+  the statements about a completed `check_fix` assume it did not raise. -/
+
+set_option linter.unusedVariables false in
+/-- Running the checks with repair is idempotent: a second `check_fix` leaves the header as the first
+    one left it — for every class constant set with a sane float format, every battery (any order, any
+    subset of the checks) and every field assignment. -/
+theorem check_fix_idempotent (c : ClsSpec) (hF : c.pixFmt.ok = true) (ks : List CheckId) (h : CF)
+    (hdef : raises c ks h = false) :
+    (runFix c ks (runFix c ks h).1).1 = (runFix c ks h).1 := by
+  rw [runFix_fst, runFix_fst, fixAll_idem c hF]
+
+example : fmt32.ok = true ∧ fmt64.ok = true ∧
+    raises Gen.nifti1Cls Gen.nifti1Cls.checks ⟨0, 3, 0, 0, [0, 0x80000000, 5], [], 0xFF800000, 9, 9, [], [], [], 0⟩ = false := by
+  decide +kernel
+
+set_option linter.unusedVariables false in
+/-- A header for which no check reports a problem is not altered. -/
+theorem check_fix_noop (c : ClsSpec) (ks : List CheckId) (h : CF) (hdef : raises c ks h = false)
+    (hr : ∀ r ∈ (runFix c ks h).2, r.level = 0) : (runFix c ks h).1 = h := by
+  rw [runFix_fst]; exact fixAll_noop c ks h hr
+
+example : ∀ r ∈ (runFix Gen.analyzeCls Gen.analyzeCls.checks
+    ⟨348, 16, 32, 0, [fmt32.one, fmt32.one, fmt32.one], [], 0, 0, 0, [], [], [], 0⟩).2, r.level = 0 := by
+  decide +kernel
+
+/-- The reports of `check_fix` are those of `check_only` on the untouched header (no check depends on
+    a field another check repairs), for a battery without repeated checks. -/
+theorem check_fix_reports_eq_check_only (c : ClsSpec) (ks : List CheckId) (hnd : ks.Nodup) (h : CF) :
+    (runFix c ks h).2 = runOnly c ks h := runFix_snd c ks hnd h
+
+example : Gen.nifti2Cls.checks.Nodup := by decide
+
+/-- After `check_fix`, a second run reports only the documented unfixable items: every check that has
+    a repair (sizeof_hdr, pixdims, qfac, xform codes, eol_check, MGH version) is silent. -/
+theorem second_run_only_unfixable (c : ClsSpec) (hc : c.ok = true) (h : CF) :
+    ∀ k ∈ c.checks, unfixable k = false → (reportOf c k (runFix c c.checks h).1).level = 0 := by
+  intro k hk hu
+  simp only [ClsSpec.ok, Bool.and_eq_true, Bool.or_eq_true, Bool.not_eq_true', List.contains_eq_mem,
+    decide_eq_true_eq, Bool.or_eq_false_iff, decide_eq_false_iff_not] at hc
+  obtain ⟨⟨hF, hx⟩, _⟩ := hc
+  rw [runFix_fst]
+  obtain ⟨h', hh'⟩ := fixAll_mem c k c.checks hk h
+  rw [hh']
+  apply reportOf_fixOf_clean c hF k _ hu
+  intro hq
+  rcases hx with hx | hx
+  · exact hx
+  · rcases hq with rfl | rfl
+    · exact absurd hk hx.1
+    · exact absurd hk hx.2
+
+example : Gen.nifti1Cls.ok = true ∧ CheckId.qfac ∈ Gen.nifti1Cls.checks ∧ unfixable .qfac = false := by
+  decide +kernel
+
+/-- A `check_fix` that completed leaves a header on which the checks do not raise either. -/
+theorem fix_preserves_defined (c : ClsSpec) (hc : c.ok = true) (ks : List CheckId) (h : CF)
+    (hdef : raises c ks h = false) : raises c ks (runFix c ks h).1 = false := by
+  simp only [ClsSpec.ok, Bool.and_eq_true] at hc
+  have hP := hc.2
+  rw [runFix_fst]
+  obtain ⟨hm, hv | hv⟩ := fixAll_vox c ks h
+  · unfold raises at hdef ⊢; rw [hm, hv]; exact hdef
+  · unfold raises; rw [hv]
+    cases hd : c.voxKind.decode c.singleVoxPattern <;> simp_all [OffVal.eqInt]
+
+/-- Refinement for two checks counted as unfixable: after the repair `_chk_offset` never reports
+    "too low" again (the single-file minimum it writes is itself acceptable) and `_chk_bitpix` never
+    reports a mismatch again; what can remain is "not divisible by 16" and "no valid datatype". -/
+theorem second_run_offset_bitpix (c : ClsSpec) (hc : c.ok = true) (h : CF) :
+    (reportOf c .offset (fixOf c .offset h)).msg ≠ .offLow ∧
+    (reportOf c .bitpix (fixOf c .bitpix h)).msg ≠ .bpMismatch := by
+  simp only [ClsSpec.ok, Bool.and_eq_true] at hc
+  have hP := hc.2
+  cases h with
+  | mk sz dt bp qf pd mg vo q s eol org dim ver =>
+  constructor
+  · simp only [fixOf, reportOf]
+    by_cases h1 : (c.voxKind.decode vo).isZero = true
+    · simp [h1, Report.clean]
+    · by_cases h2 : stripNul mg = c.singleMagic ∧ (c.voxKind.decode vo).ltInt c.singleVoxOffset = true
+      · simp only [h1, h2, and_self, if_true, Bool.false_eq_true, if_false]
+        cases hd : c.voxKind.decode c.singleVoxPattern with
+        | fin n k =>
+          simp only [hd, OffVal.eqInt, beq_iff_eq] at hP
+          have : OffVal.ltInt c.singleVoxOffset (.fin n k) = false := by
+            simp [OffVal.ltInt, hP]
+          simp only [this]
+          split
+          · simp [Report.clean]
+          · split
+            · simp_all
+            · split <;> simp [Report.clean]
+        | nan => simp [hd, OffVal.eqInt] at hP
+        | pinf => simp [hd, OffVal.eqInt] at hP
+        | ninf => simp [hd, OffVal.eqInt] at hP
+      · simp only [h1, h2, Bool.false_eq_true, if_false]
+        split <;> simp [Report.clean]
+  · simp only [fixOf, reportOf]
+    cases hd : dtItemsize c.dtTable dt with
+    | none => simp
+    | some n => simp only []; split <;> simp_all [Report.clean]
+
+example : Gen.nifti2Cls.ok = true := by decide +kernel
+
+/-! ### D'. from_header (dim / pixdim part only; the rest is checked by the oracle on the real code) -/
+
+/-- `from_header` preserves the zooms (pixdim[1..ndim]) and qfac (pixdim[0]) bit for bit. -/
+theorem from_header_preserves_zooms (F : FloatFmt) (nd : Nat) (pix : List Nat) (hl : pix.length = 8)
+    (hnd : nd ≤ 7) :
+    getZooms nd (fromHeaderPix F nd pix) = getZooms nd pix ∧
+    (fromHeaderPix F nd pix).take 1 = pix.take 1 ∧ (fromHeaderPix F nd pix).length = 8 := by
+  have hz : (getZooms nd pix).length = nd := by simp [getZooms]; omega
+  refine ⟨?_, ?_, ?_⟩
+  · simp only [fromHeaderPix, setZoomsPix, getZooms]
+    have h1 : ((setShapePix F nd pix).take 1).length = 1 := by simp [setShapePix]; omega
+    rw [List.append_assoc, List.drop_left' h1]
+    have h2 : (((pix.drop 1).take nd).take nd).length = nd := by simp; omega
+    rw [List.take_left' h2]; simp [List.take_take]
+  · simp only [fromHeaderPix, setZoomsPix]
+    have h1 : ((setShapePix F nd pix).take 1).length = 1 := by simp [setShapePix]; omega
+    rw [List.append_assoc, List.take_left' h1]
+    simp only [setShapePix]
+    rw [List.take_append_of_le_length (by simp; omega)]; simp [List.take_take]
+  · simp [fromHeaderPix, setZoomsPix, setShapePix, getZooms]; omega
+
+example : ([5, 6, 7, 8, 1, 1, 1, 1] : List Nat).length = 8 ∧ (2 : Nat) ≤ 7 := by decide
+
+/- OPEN FINDING `fromhdr:pixdim-beyond-ndim-reset` (not repaired in /repo): full statement that does
+   NOT hold —  `fromHeaderPix F nd pix = pix`  (every same-named field, here pixdim, preserved).
+   What holds is `from_header_preserves_zooms` above; the witness below shows the loss. -/
+/-- A 2-D NIfTI header whose qform gave pixdim[3] = 3.25 (0x40500000) loses it in the conversion:
+    the entries after `ndim` are reset to 1.0, which changes the qform affine. -/
+theorem from_header_pixdim_beyond_ndim_counterexample :
+    fromHeaderPix fmt32 2 [0x3F800000, 0x40000000, 0x3FC00000, 0x40500000, 0x3F800000, 0x3F800000, 0x3F800000, 0x3F800000]
+      ≠ [0x3F800000, 0x40000000, 0x3FC00000, 0x40500000, 0x3F800000, 0x3F800000, 0x3F800000, 0x3F800000] := by
+  decide
+
+/-! ### E. obligations over the regenerated tables -/
+
+/-- every header layout of the working tree tiles its block exactly: no gap, no overlap -/
+theorem layouts_wf : ∀ L ∈ Gen.layouts, L.wf = true := by decide +kernel
+
+/-- and has the size the source declares (sizeof_hdr 348 / 540, ECAT block 512, TRK 1000); the MGH
+    record is header followed by footer and fits before the data offset 284 -/
+theorem layouts_declared_sizes :
+    (∀ p ∈ Gen.declared, p.1.size = p.2) ∧
+    Gen.mgh.size = Gen.mghHeader.size + Gen.mghFooter.size ∧
+    Gen.mgh.fields.map (·.name) = Gen.mghHeader.fields.map (·.name) ++ Gen.mghFooter.fields.map (·.name) ∧
+    Gen.mghHeader.size ≤ Gen.mghDataOffset := by decide +kernel
+
+theorem layouts_names_distinct : ∀ L ∈ Gen.layouts, namesDistinct L = true := by decide +kernel
+
+/-- `make_dt_codes` tables: codes distinct, swapped dtype of the same kind and size with the opposite
+    byte order exactly for multi-byte numeric types, dtype → code is the inverse of code → dtype on the
+    non-void rows; the NIfTI-1 table extends the Analyze table; MGH types are big-endian with the
+    declared bytes per voxel. -/
+theorem dtcodes_consistent :
+    dtTableOk Gen.analyzeCodes = true ∧ dtTableOk Gen.nifti1Codes = true ∧
+    (∀ r ∈ Gen.analyzeCodes, dtFind Gen.nifti1Codes r.code = some r) ∧
+    (Gen.mghCodes.map (·.1)).Nodup ∧ (∀ r ∈ Gen.mghCodes, r.2.2.1 = r.2.2.2.1 ∧ r.2.2.2.2 = true) := by
+  decide +kernel
+
+/-- every header class: sane float format, 0 is a valid xform code, the single-file offset constant
+    is the exact value of its stored pattern, battery without repeats, guess side conditions, layout
+    exists and tiles -/
+theorem classes_consistent : ∀ c ∈ Gen.classes, classOk c = true := by decide +kernel
 
 end Nb.C10
